@@ -71,6 +71,9 @@ ROOTS = [
     "3Q4/1Q4Q1/4Q3/2Q4R/Q4Q2/3Q4/1Q4Rp/1K1BBNNk w - - 0 1",
     "qqqqk3/8/8/8/8/8/8/QQQQK3 w - - 0 1",
     "4k3/8/8/8/8/8/8/QQQQKQQQ b - - 0 1",
+    # lopsided material that still fits the 16-bit score, but not while a king is lifted off the board
+    "7k/8/8/8/8/PPPPPPPP/QQQQQQQQ/QQQKQQQQ b - - 0 1",
+    "qqqkqqqq/qqqqqqqq/pppppppp/8/8/8/8/7K w - - 0 1",
     # checks, double checks, pins
     "4k3/8/8/8/8/8/3n4/R3K2R w KQ - 0 1",
     "4k3/4r3/8/8/4N3/8/8/4K3 w - - 0 1",
@@ -90,6 +93,8 @@ SCRIPTED = [
     ("4k3/8/8/8/1p6/8/P7/4K3 w - - 0 1", ["a2a4", "b4a3"]),
     ("4k3/8/8/6Pp/8/8/8/4K3 w - h6 0 1", ["e1d1", "e8d8"]),                    # imported with an h-file en-passant square
     ("4k2r/6P1/8/8/8/8/8/4K3 w k - 0 1", ["g7h8n", "e8d8", "h8g6"]),           # promotion capturing a rook on its corner
+    ("4k2r/6P1/8/8/8/8/4P1P1/4RKR1 w k - 0 1", ["g7h8n"]),                     # ... after which the side to move still "could" castle
+    ("r3k3/1P6/8/8/8/8/4P1P1/3RKR2 w q - 0 1", ["b7a8b"]),
     ("r3k3/1P6/8/8/8/8/8/4K3 w q - 0 1", ["b7a8b", "e8d8"]),
     ("4k3/8/8/8/8/8/1p6/R3K3 b Q - 0 1", ["b2a1q", "e1e2"]),
     ("4k3/8/8/8/8/8/6p1/4K2R b K - 0 1", ["g2h1r", "e1e2"]),
